@@ -49,6 +49,18 @@ Record finv (F : frame) (m : machine) : Prop := {
   fi_base : m_loop_base m = length (f_lower F);
   fi_ret : m_ret m = f_ret F }.
 
+(* the invariant only looks at what an expression leaves untouched *)
+Lemma finv_sf F m m1 : sf m m1 -> finv F m -> finv F m1.
+Proof.
+  intros (S1 & S2 & S3 & S4 & S5) [A1 A2 A3 A4 A5 A6]. constructor.
+  - rewrite S1. exact A1.
+  - rewrite S1. exact A2.
+  - rewrite S1, S2. exact A3.
+  - rewrite S1, S3. exact A4.
+  - congruence.
+  - congruence.
+Qed.
+
 (* depth at a position inside a loop *)
 Lemma loop_depth_le F l pc : loop_ok F l -> inside pc l -> (sd (l_start l) <= sd pc)%Z.
 Proof.
